@@ -169,6 +169,50 @@ func c20Processes(c *lib.Ctx) {
 			}
 		}
 	}
+	// the `pipeline` sub-command takes its query straight from the command line (no validator in between)
+	// the echo line quotes the query as typed (it may even contain line breaks): compare what follows it
+	fromResults := func(s string) string {
+		for _, m := range []string{"📋", "No pipeline commands"} {
+			if i := strings.Index(s, m); i >= 0 {
+				return s[i:]
+			}
+		}
+		return s
+	}
+	// pipeline entries that hold the words of a query adjacent / apart / in different fields, so that their scores are close
+	pipeDB := append(append([]Cmd{}, uPool()...),
+		Cmd{Command: "cat app.log | grep error", Description: "log analysis of errors", Pipeline: true},
+		Cmd{Command: "cat app.log | awk '{print $1}'", Description: "quick log analysis", Keywords: []string{"log"}, Pipeline: true},
+		Cmd{Command: "grep -c error log | sort", Description: "analysis of the error log", Keywords: []string{"log", "analysis"}, Pipeline: true},
+		Cmd{Command: "log-analysis --all | less", Description: "page through the analysis", Keywords: []string{"analysis"}, Pipeline: true},
+		Cmd{Command: "tail -f log | grep analysis", Description: "follow a log and filter it", Keywords: []string{"log"}, Pipeline: true},
+		Cmd{Command: "sort log | uniq -c", Description: "analysis: count repeated log lines", Keywords: []string{"count", "analysis", "log"}, Pipeline: true})
+	for _, b := range []string{"count lines", "build install", "sort lines of files", "count matching lines in files", "grep", "log analysis", "analysis of the error log", "error log"} {
+		for vi, f := range vary {
+			idx++
+			if !c.Mine(int64(idx)) {
+				continue
+			}
+			if c.Expired() {
+				return
+			}
+			env := newCLIEnv(filepath.Join(c.Scratch, "c20p"))
+			dbPath := filepath.Join(env.Cwd, "db.yml")
+			writeYAML(dbPath, pipeDB)
+			r1 := env.run(bin, nil, "pipeline", "-d", dbPath, "--", b)
+			r2 := env.run(bin, nil, "pipeline", "-d", dbPath, "--", f(b))
+			c.Rep.Evaluations += 2
+			c.Count("cli_pipeline_pairs", 1)
+			o1 := fromResults(r1.Out)
+			o2 := fromResults(r2.Out)
+			if o1 != o2 {
+				c.Violate(lib.Violation{Key: fmt.Sprintf("cli-pipeline-pair-differs:variant%d", vi), What: fmt.Sprintf("`wtf pipeline %q` and `wtf pipeline %q` print different results", b, f(b)),
+					Case: c20Case{DB: dbSpec{Special: "pool"}, Base: q(b), Spell: q(f(b)), Path: "cli-pipeline"}, Observed: truncStr(o2, 800), Expected: truncStr(o1, 800)})
+			} else if strings.Contains(r1.Out, "1.") {
+				c.Count("cli_pipeline_pairs_with_results", 1)
+			}
+		}
+	}
 }
 
 // c14Processes: the 'Searching for:' line of the CLI shows exactly the
